@@ -19,3 +19,15 @@ func Get(attr []xml.Attr, local string) (int, string) {
 	}
 	return -1, ""
 }
+
+// Own is like Get except that it only considers the element's own attributes,
+// that is attributes that are not in any namespace: an attribute such as
+// x:id from a foreign namespace is not the id of the element.
+func Own(attr []xml.Attr, local string) (int, string) {
+	for idx, a := range attr {
+		if a.Name.Space == "" && a.Name.Local == local {
+			return idx, a.Value
+		}
+	}
+	return -1, ""
+}
